@@ -134,6 +134,15 @@ def normalize(raw):
         others = [x for x in pin["adts"] if x not in have and x not in tmap.values() and _parent(x) == _parent(p) and ("S", tuple((n, t.replace(x, "Self")) for n, t in pin["adts"][x])) == want]
         if len(cands) == 1 and len(others) == 1:
             tmap[cands[0]] = p
+    # traits of the crate moved to another module, by name
+    havet = {t_["path"] for t_ in raw.get("traits", [])}
+    for p in pin.get("traits", []):
+        if p in havet:
+            continue
+        last = p.rsplit("::", 1)[-1]
+        cands = [q for q in havet if q not in pin.get("traits", []) and q.rsplit("::", 1)[-1] == last and not q.startswith(("std::", "core::", "alloc::"))]
+        if len(cands) == 1:
+            tmap[cands[0]] = p
     if tmap:
         txt = json.dumps(raw)
         for q in sorted(tmap, key=len, reverse=True):
@@ -151,6 +160,16 @@ def normalize(raw):
             continue
         cands = [q for q, c in havec.items() if q not in pc and _parent(q) == _parent(p) and c["ty"] == ty and c["int"] == val]
         others = [x for x, (t2, v2) in pc.items() if x not in havec and _parent(x) == _parent(p) and t2 == ty and v2 == val]
+        if len(cands) == 1 and len(others) == 1:
+            cmap[cands[0]] = p
+    # ... or moved to another module under the same name (the builder's constants following the builder into a
+    # submodule): the only missing and the only new constant of that name, same type and value
+    for p, (ty, val) in sorted(pc.items()):
+        if p in havec or p in cmap.values():
+            continue
+        last = p.rsplit("::", 1)[-1]
+        cands = [q for q, c in havec.items() if q not in pc and q not in cmap and q.rsplit("::", 1)[-1] == last and c["ty"] == ty and c["int"] == val]
+        others = [x for x in pc if x not in havec and x.rsplit("::", 1)[-1] == last]
         if len(cands) == 1 and len(others) == 1:
             cmap[cands[0]] = p
     if cmap:
